@@ -241,6 +241,11 @@ func (dec *xmlReader) Tag() int {
 	return tg
 }
 
+// typeInvalid is what the text readers report as the type of a value whose type name
+// is not a TTLV type. It matches no TTLV type, so reading such a value fails with an
+// error whatever the expected type is.
+const typeInvalid Type = 0xFF
+
 func (dec *xmlReader) Type() Type {
 	if dec.elem == nil {
 		return 0
@@ -250,8 +255,7 @@ func (dec *xmlReader) Type() Type {
 			if ty, ok := typeFromName(attr.Value); ok {
 				return ty
 			}
-			//TODO: return error
-			panic("Invalid type")
+			return typeInvalid
 		}
 	}
 	return TypeStructure
